@@ -9,7 +9,7 @@ for p in sorted(glob.glob(os.path.join(ROOT, "seeded", "*", "meta.json"))):
     files = sorted(set(re.findall(r"^\+\+\+ b/(\S+)", patch, re.M)))
     mons = sorted({re.match(r"monitor=(\S+)", x).group(1) for x in m.get("check", {}).get("monitors", []) if x.startswith("monitor=")})
     first = (m.get("needs_to_manifest", "").strip().splitlines() or [""])
-    rows.append((m["seeded_id"], m["property"], ",".join(os.path.basename(f) for f in files), "yes" if m.get("confirmed") else "NO", m.get("check", {}).get("verdict", "?"), ", ".join(mons[:4]), ("obsolete since a later fix" if m.get("obsolete") else ("strengthened" if "history" in m else ""))))
+    rows.append((m["seeded_id"], m["property"], ",".join(os.path.basename(f) for f in files), "yes" if m.get("confirmed") else "NO", m.get("check", {}).get("verdict", "?"), ", ".join(mons[:4]), ("outside the quantified domain (see meta.json)" if m.get("out_of_domain") else "obsolete since a later fix" if m.get("obsolete") else ("strengthened" if "history" in m else ""))))
 print("| id | property | file | confirmed (tests pass, demo fails/passes) | quick check | monitors that fired | note |")
 print("|---|---|---|---|---|---|---|")
 for r in rows:
